@@ -142,7 +142,7 @@ class Recorder(object):
             'wS': [self.sent.get(tr, self.cnt())[b] for b, _ in STATKEY] if tr else [],
             'wR': [self.recv.get(tr, self.cnt())[b] for b, _ in STATKEY] if tr else [],
             'rest': self.rest_rec(o['rest']),
-            'fz': '', 'flen': 0, 'probeok': True, 'aspathok': True, 'acc': 0, 'esub': 0,
+            'fz': '', 'flen': 0, 'probeok': True, 'rptsame': True, 'aspathok': True, 'acc': 0, 'esub': 0,
             'rq': dict(_RQ0), 'statsame': True,
         }
         if extra:
@@ -294,7 +294,8 @@ def coop_continue(w, rec, idle_ticks, hold_s, slack=1):
         elif connecting:
             rec.step({'k': 'connOk', 'c': connecting[0]}, connecting[0])
         elif tropen and st == 'OPENSENT':
-            rec.step({'k': 'msg', 'c': tr, 'm': 'OPEN', 'h': 90}, tr)
+            # (the cooperative peer may be a replacement router: another BGP identifier than in the history so far)
+            rec.step({'k': 'msg', 'c': tr, 'm': 'OPEN', 'h': 90, 'id': 0x0a00004d}, tr)
         elif tropen and st in ('OPENCONFIRM', 'ESTABLISHED') and not kad:
             rec.step({'k': 'msg', 'c': tr, 'm': 'KA'}, tr)
             kad = True
